@@ -67,6 +67,16 @@ Theorem C03_string_array_roundtrip :
 Proof. exact string_array_value_roundtrip. Qed.
 Print Assumptions C03_string_array_roundtrip.
 
+(* arrays of chars: every element is written as the string literal of its one character, and the list decodes to
+   exactly those one-character strings *)
+Theorem C03_char_array_roundtrip :
+  forall (ftext : bool -> N -> str) b (cs : list N) pre rest, cs <> [] -> Forall (fun c => nul_ok b [c]) cs ->
+  decode_string_array_at b pre
+    (pre ++ value_to_string ftext b (VArray TChar (Some (map (fun c => V TChar (Some (PChar c))) cs))) ++ rest)
+  = Some (map (fun c => [c]) cs, 93 :: rest).
+Proof. exact char_array_value_roundtrip. Qed.
+Print Assumptions C03_char_array_roundtrip.
+
 (* arrays of byte strings: the element list written between ARRAY [ and ] decodes, under the engine's
    byte-string lexer, to exactly the given byte strings *)
 Theorem C03_bytes_array_roundtrip :
